@@ -72,7 +72,7 @@ def model_check(module, cfg, workdir, workers=16, timeout=3600, extra=(), env=No
     m = re.search(r"Invariant (\S+) is violated", out)
     if m:
         violated = m.group(1)
-    m = re.search(r"(Temporal properties were violated|Action property (\S+) is violated|Deadlock reached)", out)
+    m = re.search(r"(Temporal propert(y|ies) .*violated|Action property (\S+) is violated|Deadlock reached)", out)
     if m and violated is None:
         violated = m.group(0)
     finished = "Model checking completed. No error has been found." in out
